@@ -671,7 +671,7 @@ func (g *Gen) applyContract(st *State, a contractApp) Val {
 		func() {
 			defer func() {
 				if r := recover(); r != nil {
-					if u, ok := r.(unsupportedErr); ok && !a.ownNames && strings.Contains(u.msg, "unknown identifier") {
+					if u, ok := r.(unsupportedErr); ok && strings.Contains(u.msg, "in callee contract") {
 						g.note("call", "postcondition of "+a.what+" not used at this call site (it mentions the callee's locals): "+c.Src)
 						return
 					}
